@@ -1502,8 +1502,8 @@ VARIANTS: List[Variant] = [
             "    if isinstance(node, ast.With):\n        if any(walk(node, (ast.Raise, ast.Assert))):\n            return False\n        return any(is_blocking(child, parent_type) for child in node.body)\n", "R16.20"),
     Variant("with-never-blocks", "REPAIRED", "core", '    if isinstance(node, ast.With):\n        return any(is_blocking(child, parent_type) for child in node.body)\n', "    if isinstance(node, ast.With):\n        return False\n", "R16.20"),
     Variant("twice-defined-functions-whitelisted-again", "FIRE", "parsing", "            if definition_count[node.name] > 1:\n                continue  # Which of the definitions a call means is not known\n", "", "R16.19"),
-    Variant("twice-defined-classes-whitelisted-again", "FIRE", "parsing", "        if definition_count[node.name] > 1 or node.name in defined_names:\n            continue  # Which of the definitions a call means is not known\n\n", "", "R16.19"),
-    Variant("census-of-function-definitions-only", "FIRE", "parsing", "        for node in core.walk(root, (ast.FunctionDef, ast.AsyncFunctionDef, ast.ClassDef))\n    )\n    changes = True", "        for node in core.walk(root, (ast.FunctionDef, ast.AsyncFunctionDef))\n    )\n    changes = True", "R16.19"),
+    Variant("twice-defined-classes-whitelisted-again", "FIRE", "parsing", "        if definition_count[node.name] > 1 or node.name in defined_names:\n            continue  # Which of the definitions a call means is not known\n        if node.decorator_list:", "        if node.decorator_list:", "R16.19"),
+    Variant("census-of-function-definitions-only", "FIRE", "parsing", "        for node in core.walk(root, (ast.FunctionDef, ast.AsyncFunctionDef, ast.ClassDef))\n    )\n    # An import binds the name as well", "        for node in core.walk(root, (ast.FunctionDef, ast.AsyncFunctionDef))\n    )\n    # An import binds the name as well", "R16.19"),
     Variant("single-definition-tested-by-equality", "SILENT", "parsing", "            if definition_count[node.name] > 1:\n                continue  # Which of the definitions a call means is not known\n", "            if definition_count[node.name] != 1:\n                continue\n", "R16.19"),
     Variant("function-arguments-of-map-not-judged", "FIRE", "core", "        if any(\n            _may_call_something_unsafe(function, safe_callable_whitelist)\n            for function in _functions_called_by(node)\n        ):\n            return True\n\n", "", "R16.18"),
     Variant("key-functions-forgotten", "FIRE", "core", "    if name in (\"sorted\", \"max\", \"min\", \"sort\", \"groupby\", \"nlargest\", \"nsmallest\", \"accumulate\"):", "    if name in (\"sort\", \"groupby\", \"nlargest\", \"nsmallest\", \"accumulate\"):", "R16.18"),
@@ -1546,11 +1546,11 @@ VARIANTS: List[Variant] = [
     Variant("whole-if-deleted-with-its-live-branch", "FIRE", "fixes",
             "                for child in node.orelse:\n                    yield child, None, transaction\n", "                for _ in node.orelse:\n                    yield node, None, transaction\n", "R16.11"),
     Variant("whitelist-extended-in-place", "FIRE", "core",
-            "            safe_callable_whitelist = safe_callable_whitelist | {node.func.attr}\n",
-            "            safe_callable_whitelist |= {node.func.attr}\n", "R16.9"),
+            "            callee_whitelist = safe_callable_whitelist | {node.func.attr}\n",
+            "            callee_whitelist = safe_callable_whitelist\n            callee_whitelist |= {node.func.attr}\n", "R16.9"),
     Variant("whitelist-extended-by-union-call", "SILENT", "core",
-            "            safe_callable_whitelist = safe_callable_whitelist | {node.func.attr}\n",
-            "            safe_callable_whitelist = frozenset(safe_callable_whitelist).union({node.func.attr})\n"),
+            "            callee_whitelist = safe_callable_whitelist | {node.func.attr}\n",
+            "            callee_whitelist = frozenset(safe_callable_whitelist).union({node.func.attr})\n"),
     Variant("if-forgets-orelse", "FIRE", "core",
             "            for item in itertools.chain(node.body, [node.test], node.orelse)\n", "            for item in itertools.chain(node.body, [node.test])\n", "R16.2", "ast.If"),
     Variant("for-forgets-orelse", "FIRE", "core",
